@@ -1,4 +1,5 @@
 """C06 - a numeric variable only holds values of its type and range (C06.R1-R4)."""
+import re
 from .. import emit, mir, optables as ot, tagflow as tf
 from ..core import CheckError
 from . import common
@@ -417,6 +418,11 @@ def r7_guard_tests_converted_value(ctx, rule="C06.R7"):
     prog = ctx.prog
     fns = [f for f in prog.fns.values() if f.crate == "rusty_linter" and f.name == "try_cast" and f.impl
            and (f.impl.get("trait") or "").endswith("::QBNumberCast")]
+    # ... and the functions of the value arithmetic that pick the narrowest type for a float result
+    fns += [f for f in prog.fns.values() if f.crate == "rusty_variant" and f.kind != "closure"
+            and "Variant" in f.body.locals[0]["ty"]
+            and any(st["k"] == "assign" and st["r"].get("k") == "cast" and st["r"].get("ck") == "FloatToInt"
+                    for blk in f.body.blocks if not blk.get("c") for st in blk["s"])]
     n = 0
     for f in sorted(fns, key=lambda f: f.path):
         body = f.body
@@ -449,6 +455,9 @@ def r7_guard_tests_converted_value(ctx, rule="C06.R7"):
                 if st["k"] == "assign" and r.get("k") == "bin" and r["op"] in ("Ge", "Le", "Lt", "Gt"):
                     sides = [mir.strip_all(pv.of_operand(x)) for x in (r["a"], r["b"])]
                     var = [o for o in sides if not _const_origin(o)]
+                    # a comparison with a float literal (`diff > 0.0001`) is no range test
+                    if any(o[0] == "const" and re.search(r"\d(E-?\d+)?f(32|64)$", str(o[1])) for o in sides):
+                        continue
                     guards.append((b, "comparison", var))
             t = blk["t"]
             if t["k"] == "call" and (t.get("cpath") or "").endswith("::contains") and "Range" in (t.get("cpath") or "") + (t.get("self_ty") or ""):
@@ -655,6 +664,158 @@ def r11_builtin_results_have_their_static_type(ctx, T, rule="C06.R11"):
     ctx.require(rule, 20)
 
 
+def _move_closure(body, seeds):
+    """locals that hold the very value of a seed local (moves, copies, references)"""
+    vs = set(seeds)
+    changed = True
+    while changed:
+        changed = False
+        for blk in body.blocks:
+            for st in blk["s"]:
+                if st["k"] != "assign" or st["p"][1] or st["p"][0] in vs:
+                    continue
+                r = st["r"]
+                src = None
+                if r["k"] == "use" and isinstance(r.get("o"), dict):
+                    pl = mir.op_place(r["o"])
+                    src = pl[0] if pl is not None and not [e for e in pl[1] if e != "*"] else None
+                elif r["k"] in ("ref", "addr") and "p" in r and not [e for e in r["p"][1] if e != "*"]:
+                    src = r["p"][0]
+                if src in vs:
+                    vs.add(st["p"][0])
+                    changed = True
+    return vs
+
+
+def _finite_guarded(body, vs, b):
+    """block b is on the true side of a test `is_finite(v)` for a v in vs"""
+    for cb, t in body.calls():
+        if (t.get("cpath") or "").split("::")[-1] != "is_finite" or not t["args"]:
+            continue
+        pl = mir.op_place(t["args"][0])
+        if pl is None or pl[0] not in vs:
+            continue
+        nxt = body.term(t["t"])
+        d = t["d"][0]
+        if nxt["k"] != "switch" or mir.op_place(nxt["o"]) is None or mir.op_place(nxt["o"])[0] != d:
+            continue
+        false_t = [tg for v, tg in nxt["ts"] if v == 0]
+        true_t = nxt["else"]
+        if b in body.reachable(true_t, avoid=set(false_t)) and b not in body.reachable(false_t[0] if false_t else -1, avoid={true_t}):
+            return True
+    return False
+
+
+def r12_float_results_are_finite(ctx, rule="C06.R12"):
+    """`a finite single or a finite double ... any conversion or arithmetic result that does not fit
+    raises Overflow`: IEEE arithmetic does not fail, it yields infinity.  In the value arithmetic
+    (rusty_variant) every result of a float + - * / on two run-time operands, and in the conversions
+    (qb_casting) every narrowing of a double to a single, is tested with is_finite before it becomes a
+    Variant or is handed to a function that makes one; the untested side must not build the value."""
+    prog = ctx.prog
+    n = 0
+    helpers = {}
+
+    def guarded_param(g, i):
+        """g wraps its parameter i into a Variant only under is_finite(param)"""
+        key = (g.id, i)
+        if key in helpers:
+            return helpers[key]
+        helpers[key] = False
+        vs = _move_closure(g.body, {i + 1})
+        sinks = _sinks(g, vs)
+        ok = bool(sinks) and all(kind == "agg" and _finite_guarded(g.body, vs, b) for kind, b, _t in sinks)
+        helpers[key] = ok
+        return ok
+
+    def _sinks(f, vs):
+        out = []
+        for b, blk in enumerate(f.body.blocks):
+            if blk.get("c"):
+                continue
+            for st in blk["s"]:
+                r = st.get("r", {})
+                if st["k"] == "assign" and r.get("k") == "agg" and (r.get("adt") or "").endswith("::Variant") \
+                        and r.get("variant") in ("VSingle", "VDouble"):
+                    if any(mir.op_place(o) is not None and mir.op_place(o)[0] in vs for o in r["ops"]):
+                        out.append(("agg", b, None))
+            t = blk["t"]
+            if t["k"] == "call":
+                g = prog.fns.get(t.get("res") or mir.callee_of(t))
+                if g is None or g.crate not in ("rusty_variant", "rusty_linter"):
+                    continue
+                for j, a in enumerate(t["args"]):
+                    pl = mir.op_place(a)
+                    if pl is not None and pl[0] in vs and "Variant" in g.body.locals[0]["ty"]:
+                        out.append(("call", b, (g, j)))
+        return out
+
+    fns = [f for f in prog.fns.values() if f.crate == "rusty_variant" and f.kind != "const"]
+    casts = [f for f in prog.fns.values() if f.crate == "rusty_linter" and "qb_casting" in f.id and f.kind != "const"]
+    for f in sorted(fns + casts, key=lambda f: f.id):
+        body = f.body
+        for b, blk in enumerate(body.blocks):
+            if blk.get("c"):
+                continue
+            for st in blk["s"]:
+                if st["k"] != "assign" or st["p"][1]:
+                    continue
+                r = st["r"]
+                ty = body.locals[st["p"][0]]["ty"]
+                what = None
+                if r["k"] == "bin" and r.get("op") in ("Add", "Sub", "Mul", "Div") and ty in ("f32", "f64"):
+                    if mir.op_place(r["a"]) is None or mir.op_place(r["b"]) is None:
+                        if r["op"] in ("Add", "Sub"):
+                            continue        # x + c / x - c of a finite x stays finite
+                    what = "float %s" % r["op"]
+                elif r["k"] == "cast" and r.get("ck") == "FloatToFloat" and r.get("ty") == "f32":
+                    what = "narrowing of a double to a single"
+                if what is None:
+                    continue
+                vs = _move_closure(body, {st["p"][0]})
+                sinks = _sinks(f, vs)
+                # a narrowing whose result is returned (the conversion functions)
+                returned = r["k"] == "cast" and (0 in vs or any(
+                    s2["k"] == "assign" and s2["p"][0] == 0 and any(
+                        mir.op_place(o) is not None and mir.op_place(o)[0] in vs for o in s2["r"].get("ops", []))
+                    for bl2 in body.blocks for s2 in bl2["s"]))
+                if not sinks and not returned:
+                    continue
+                n += 1
+                bad = []
+                for kind, sb, extra in sinks:
+                    if _finite_guarded(body, vs, sb):
+                        continue
+                    if kind == "call" and guarded_param(*extra):
+                        continue
+                    bad.append((kind, sb))
+                if returned and not sinks:
+                    ok_blocks = [b2 for b2, bl2 in enumerate(body.blocks) for s2 in bl2["s"]
+                                 if s2["k"] == "assign" and s2["p"][0] == 0 and s2["r"].get("k") == "agg"
+                                 and any(mir.op_place(o) is not None and mir.op_place(o)[0] in vs for o in s2["r"].get("ops", []))]
+                    if not ok_blocks or not all(_finite_guarded(body, vs, b2) for b2 in ok_blocks):
+                        bad.append(("return", b))
+                name = f.path.split("::", 1)[1]
+                ctx.decide(not bad, rule, "%s:%s:%s@%s" % (rule, name, what.replace(" ", "-"), _ordinal(f, st)), "%s:%s" % (f.file, st.get("ln")),
+                           "tested with is_finite before it becomes a value",
+                           "the result of a %s in %s becomes a value without an is_finite test: the operation "
+                           "yields infinity instead of failing, so `x# = x# * 10` in a loop ends with inf stored in a "
+                           "DOUBLE (and `s! = 1D+60` with inf in a SINGLE) where Overflow (6) is prescribed" % (what, name))
+    ctx.analysed_units(rule, float_results=n)
+    ctx.require(rule, 20)
+
+
+def _ordinal(f, st):
+    k = 0
+    for blk in f.body.blocks:
+        for s2 in blk["s"]:
+            if s2 is st:
+                return k
+            if s2["k"] == "assign" and s2["r"].get("k") == st["r"].get("k") and s2["r"].get("op") == st["r"].get("op"):
+                k += 1
+    return k
+
+
 def run(ctx):
     common.install(ctx)
     T = ot.OpTables(ctx.prog)
@@ -671,3 +832,4 @@ def run(ctx):
     r9_range_constants_exact(ctx)
     r10_integer_arithmetic_is_direct(ctx)
     r11_builtin_results_have_their_static_type(ctx, T)
+    r12_float_results_are_finite(ctx)
